@@ -15,8 +15,10 @@
         Binop.eval_binop (the `for idx in 0..len { list[idx] }` loops stay in range, the
         unreachable!() arms are unreachable because the dot operators return first and
         `Into` with a list on the right is caught before the match), the built-ins of
-        EvalInst.builtin_impl (the arity check precedes every `args[i]`), factorial in the
-        release build; and the refutation for the debug build ((2^64)! overflows `+ 1`). *)
+        EvalInst.builtin_impl (the arity check precedes every `args[i]`), the factorial (capped
+        loop, no `+ 1`: total in both builds since repo fix def3962);
+     5. the statement loop of whole programs;
+     6. the list / string / record built-ins transcribed in BuiltinsList.v and Access.v. *)
 From Coq Require Import String Ascii List ZArith Bool Lia.
 Require Import Blots.Num Blots.gen.Builtins Blots.Ast Blots.Value Blots.Outcome Blots.Binop
                Blots.Env Blots.Eval Blots.BuiltinsHof Blots.Program Blots.EvalInst
@@ -739,35 +741,23 @@ Proof.
 Qed.
 
 (* ------------------------------------------------------------------ 4c. factorial *)
-(* release build: `(n as u64) + 1` wraps, no abort *)
-Lemma factorial_release_no_panic : forall n, factorial_val true n <> Panic.
+(* `(1..=min(n as u64, 171))`: no `+ 1`, no overflow in either build (repo fix def3962; before
+   it `(n as u64) + 1` overflowed for n >= 2^64 in builds with overflow checks) *)
+Lemma factorial_no_panic : forall release n, factorial_val release n <> Panic.
 Proof.
-  intros n. unfold factorial_val.
-  destruct (ngeb n nzero && neqb n (num_of_Z (as_u64 n))); [|discriminate].
-  destruct (as_u64 n =? U64_MAX)%Z; [discriminate|].
-  destruct (as_u64 n <=? 200)%Z; discriminate.
+  intros release n. unfold factorial_val.
+  destruct (ngeb n nzero && neqb n (num_of_Z (as_u64 n))); discriminate.
 Qed.
 
 (* ------------------------------------------------------------------ instantiated *)
-Theorem eval_release_no_panic : forall d c e,
-  wf c -> fst (evalD true EvalInst.binop_impl EvalInst.builtin_impl d c e) <> Panic.
+(* both overflow semantics *)
+Theorem eval_inst_no_panic : forall release d c e,
+  wf c -> fst (evalD release EvalInst.binop_impl EvalInst.builtin_impl d c e) <> Panic.
 Proof.
-  apply evalD_no_panic.
+  intros release. apply evalD_no_panic.
   - exact binop_impl_no_panic.
   - exact builtin_impl_no_panic.
-  - exact factorial_release_no_panic.
-Qed.
-
-(* any build, when the program's factorials stay below 2^64: stated over an arbitrary
-   [release] with the overflow-freedom of factorial as the hypothesis *)
-Theorem eval_no_panic_if_factorial_total : forall release,
-  (forall n, factorial_val release n <> Panic) ->
-  forall d c e, wf c -> fst (evalD release EvalInst.binop_impl EvalInst.builtin_impl d c e) <> Panic.
-Proof.
-  intros release Hf. apply evalD_no_panic.
-  - exact binop_impl_no_panic.
-  - exact builtin_impl_no_panic.
-  - exact Hf.
+  - exact (factorial_no_panic release).
 Qed.
 
 (* ------------------------------------------------------------------ 5. whole programs *)
@@ -814,29 +804,13 @@ End RunNoPanic.
 Lemma init_session_wf : forall inputs, wf (s_cfg (init_session inputs)).
 Proof. reflexivity. Qed.
 
-Theorem program_release_no_panic : forall inputs prog,
+Theorem program_no_panic : forall release inputs prog,
   Forall (fun rs => fst rs <> RFail Panic)
-         (snd (run EvalInst.eval_release (init_session inputs) prog)).
+         (snd (run (eval_top release EvalInst.binop_impl EvalInst.builtin_impl) (init_session inputs) prog)).
 Proof.
-  intros inputs prog. apply run_np.
-  - intros c e Hw. apply eval_release_no_panic. exact Hw.
-  - intros c e r c' H Hw. unfold EvalInst.eval_release, eval_top in H.
-    eapply evalD_keeps_wf; eauto.
+  intros release inputs prog. apply run_np.
+  - intros c e Hw. apply eval_inst_no_panic. exact Hw.
+  - intros c e r c' H Hw. unfold eval_top in H. eapply evalD_keeps_wf; eauto.
   - apply init_session_wf.
 Qed.
 
-(* ------------------------------------------------------------------ 6. the debug build *)
-(* exactly one arithmetic overflow is on the evaluator path: (n as u64) + 1 for n >= 2^64 *)
-Lemma factorial_debug_panic_iff : forall n,
-  factorial_val false n = Panic <->
-  (ngeb n nzero && neqb n (num_of_Z (as_u64 n)) = true /\ as_u64 n = U64_MAX).
-Proof.
-  intros n. unfold factorial_val.
-  destruct (ngeb n nzero && neqb n (num_of_Z (as_u64 n))).
-  - destruct (as_u64 n =? U64_MAX)%Z eqn:E.
-    + apply Z.eqb_eq in E. split; auto.
-    + apply Z.eqb_neq in E. split.
-      * destruct (as_u64 n <=? 200)%Z; discriminate.
-      * intros [_ H]. congruence.
-  - split; [discriminate|]. intros [H _]. discriminate.
-Qed.
